@@ -276,7 +276,15 @@ def history_program(rng, length=420, nkeys=330):
                 calls.append(_d.setopt('mx', mx))
             else:
                 calls.append(_d.setopt('ba', rng.randint(0, 1)))
-        else:
+        elif r < 0.96:
             bits = key_bits(rng.choice(hot))
             calls.append({'op': rng.choice(['eq', 'contains', 'startswith']), 't': 'k0', 'xs': [_d.lit('bin', bits)], 'ia': [NONE_I, NONE_I]})
+        else:
+            # the key string as the LEFT operand of an operator (promoted through the same caches), on an object of
+            # different content: must leave what the string means alone
+            bits = key_bits(rng.choice(hot))
+            other = [1 - b for b in bits]
+            kind = 'hex' if bits and len(bits) % 4 == 0 and rng.random() < 0.5 else 'bin'
+            calls.append(_d.mk('z', rng.choice(_d.CLASSES), other, 'bools', NONE_I))
+            calls.append({'op': rng.choice(['rand', 'ror_', 'rxor', 'radd', 'and', 'xor', 'add']), 't': 'z', 'xs': [_d.lit(kind, bits)]})
     return {'calls': calls}
